@@ -122,7 +122,8 @@ def main(tier):
         for c in crashes:
             job = shards[i][c["job"]]
             m = job["muts"][0] if job["muts"] else dict(f="none", c="none")
-            rec = dict(check="fault", kind="process-died", op=c["op"], field=m["f"], cls=m["c"], stack=job["par"]["stack"])
+            rec = dict(check="fault", kind="does-not-terminate" if c["rc"] in (97, -999) else "process-died", op=c["op"], field=m["f"], cls=m["c"],
+                       stack=job["par"]["stack"])
             v.violation(rec, dict(engine="fault", profile="s20", rc=c["rc"], stderr=c["stderr"], job=job))
     log(f"[C08] FaultGrammar: {len(behs)} behaviours -> {len(jobs)} runs; {tot['runs']} completed, "
         f"{tot['op_ok']} operations ok, {tot['op_err']} returned an error/none")
